@@ -114,8 +114,7 @@ def rule_c(ctx):
     nm = m.func(MOD, "Geometry.normalize")
     am = AM(nm)
     a, b = nm.params[1], nm.params[2]
-    ok = (am.has(nm.node, f"integral_ref = self.integrate({b})") is not None and am.has(nm.node, f"integral = self.integrate({a})") is not None
-          and (am.has(nm.node, "ratio = np.divide(integral_ref, integral)") is not None or am.has(nm.node, "ratio = integral_ref / integral") is not None)
+    ok = ((am.has(nm.node, f"ratio = np.divide(self.integrate({b}), self.integrate({a}))") is not None or am.has(nm.node, f"ratio = self.integrate({b}) / self.integrate({a})") is not None)
           and am.has(nm.node, f"rescaled_img = darsia.weight({a}, ratio)") is not None)
     ctx.ob(R, nm.qname, "normalize integrates both images with the same geometry and weights the image by reference/original", ok, str(am.show()), nm.node)
 
